@@ -1,5 +1,6 @@
 CONSTANTS
   Types <- TypesQuick
   MaxSet = 3
+  FormsAll = FALSE
 SPECIFICATION FSpec
 CHECK_DEADLOCK FALSE
